@@ -5,10 +5,12 @@ cd /repo || exit 3
 git apply --check "$patch" || { echo "PATCH DOES NOT APPLY"; exit 3; }
 git apply "$patch"
 cd /verif
+cp -f evidence/$prop.json /tmp/tryseed.$$.ev 2>/dev/null
 ./check "$prop" "$@" > /tmp/tryseed.$$.out 2>&1; rc=$?
 grep -E "^(VIOLATION|KNOWN-FINDING|INCONCLUSIVE|OK)" /tmp/tryseed.$$.out | cut -c1-220 | sort | uniq -c | head -20
 grep -E "violation in" /tmp/tryseed.$$.out | cut -c1-260 | head -4
 echo "exit=$rc"
 rm -f /tmp/tryseed.$$.out
 git -C /repo checkout -- . 
+[ -f /tmp/tryseed.$$.ev ] && mv -f /tmp/tryseed.$$.ev /verif/evidence/$prop.json
 exit $rc
